@@ -37,7 +37,7 @@ def call_ext(it, ref, args, kwargs, node):
     head, _, meth = name.partition(".")
     if recv is not None:
         table = {"str": _STR, "list": _LIST, "dict": _DICT, "set": _SET, "Pattern": _PATTERN, "Match": _MATCH,
-                 "sym": _SYMM, "unknown": _UNK, "Path": _PATHM}.get(head)
+                 "sym": _SYMM, "unknown": _UNK, "Path": _PATHM, "Random": _RANDOM, "Rstr": _RSTR}.get(head)
         if head == "str" and (table is None or meth not in table):
             from . import ops
             rv = ops.strval(recv)
@@ -1250,3 +1250,90 @@ _EXT = {
 
 
 _PATHM.update({"glob": _path_glob, "open": _path_open})
+
+
+# ------------------------------------------------------------------------------------------------ random / rstr
+
+def _random_new(it, args, kwargs, node):
+    from . import ops
+    it.event("random_new", seeded=bool(args or kwargs), node=node, where=it._where(node))
+    return ops.RandVal(bool(args or kwargs), origin=node)
+
+
+def _rand_choice(it, recv, args, kwargs, node):
+    """Random.choice: IndexError on an empty sequence; otherwise any element (representatives)."""
+    from . import ops
+    seq = ops.iterate(it, args[0], node)
+    it.event("random_draw", gen=recv, op="choice", node=node)
+    if not seq:
+        it.may_raise("IndexError", node, "Cannot choose from an empty sequence", certain=True)
+    reps = getattr(it, "choice_reps", None)
+    cands = reps(seq) if reps else (seq if len(seq) <= 6 else [seq[0], seq[len(seq) // 2], seq[-1]])
+    return cands[it.choose(len(cands), "random.choice")]
+
+
+def _rstr_new(it, args, kwargs, node):
+    from . import ops
+    gen = args[0] if args else None
+    it.event("rstr_new", gen=gen, node=node, where=it._where(node))
+    return ops.RstrVal(gen)
+
+
+_shape_cache = {}
+
+
+def regex_shape(pattern, flags=0):
+    """Abstract string (AStr) covering every text a full match of ``pattern`` can be (cached per pattern)."""
+    k = (pattern, flags)
+    if k not in _shape_cache:
+        _shape_cache[k] = _regex_shape(pattern, flags)
+    return _shape_cache[k]
+
+
+def _regex_shape(pattern, flags=0):
+    from . import relang
+    from .values import ND, OT, CharSet, AStr, ABag
+    rg = relang.Regex(pattern, flags)
+    A = relang.Alphabet(rg.raws + [relang.RAW_ASCII_DIGIT, relang.RAW_ASCII_UPPER, relang.RAW_ASCII_LOWER, relang.RAW_DIGIT_UNI])
+    lang = rg.core(A)
+    lens, more = lang.lengths(64)
+    if more or not lens:
+        raise _CE("regex of unbounded length")
+    digit_uni = A.atoms_of(relang.RAW_DIGIT_UNI)
+
+    def chars_of(atoms):
+        out = set()
+        for c in range(128):
+            if A.atom_of_cp(c) in atoms:
+                out.add(chr(c))
+        for a in atoms:
+            if A.atom_rep[a] >= 128 or A.atom_count[a] > sum(1 for c in range(128) if A.atom_of_cp(c) == a):
+                out.add(ND if a in digit_uni else OT)
+        return CharSet(out)
+
+    shapes = []
+    for n in sorted(lens):
+        proj = lang.projections(n)
+        shapes.append(AStr.make([chars_of(p) for p in proj]))
+    if len(shapes) == 1:
+        return shapes[0]
+    return shapes
+
+
+def _rstr_xeger(it, recv, args, kwargs, node):
+    from . import ops
+    rx = args[0]
+    it.event("random_draw", gen=recv.gen, op="xeger", node=node)
+    if isinstance(rx, str):
+        rx = RegexVal(rx, 0)
+    if not isinstance(rx, RegexVal):
+        raise _CE("xeger of an abstract pattern")
+    shape = regex_shape(rx.pattern, rx.flags)
+    if isinstance(shape, list):
+        return shape[it.choose(len(shape), "xeger length")]
+    return shape
+
+
+_RANDOM = {"choice": _rand_choice}
+_RSTR = {"xeger": _rstr_xeger}
+_EXT.update({"random.Random": _random_new, "rstr.Rstr": _rstr_new})
